@@ -109,6 +109,16 @@ CHECKS = {
         note="Package name equal across runs (paths compared relative to the project root); post-processing off in quick; 4 hash seeds per case, so a seed-specific ordering that coincides on all 4 is missed.",
         design="§5 C09",
     ),
+    "C10": dict(
+        category="fault_enumeration",
+        technique="enumerated fault points (none, each of 10 generation stages failed by wrapping the callable from the harness, every k-th file write aborted through a sys.addaudithook on open()) x force on/off x existing tree absent/equal/edited/partial x 5 layouts x 3 documents; oracle = recursive before/after snapshot (path, size, sha256, mtime_ns) of a sandbox project root seeded with sentinel files + audit log of write/remove/rename/mkdir events under the root",
+        text="~2 500 fault cases per quick run (every 3rd write index), all write indices in thorough (exhaustive over the fault axis). "
+             "Without force over an existing package the tree must be byte- and mtime-identical and no write/remove event may occur "
+             "under the project root in any outcome; in every mode each touched path must lie inside the output package, the core "
+             "package or be a new ancestor __init__.py.",
+        note="Faults are exceptions raised at the fault point (no process kill, no torn writes); temp dir and debug logs are redirected outside the project root; post-processing only as an injected stage.",
+        design="§5 C10",
+    ),
     "C12": dict(
         category="exploration",
         technique="Hypothesis-constructed specs x core layouts x history (fresh project / shared core holding drifted runtime files) through generate_client; AST scan of every import node of every emitted file (module level, nested, TYPE_CHECKING) against an allow-list; fresh child interpreter with the generator blocked at the meta path running an exercise script (round-trips, get_mapping(), every client method); byte comparison of the copied runtime files",
